@@ -25,7 +25,13 @@ FORMATS = {
     "pdb": (False, True, False, False, False),
     "dtr": (False, False, False, False, False),
 }
-NATOMS = {1: 11, 2: 12}
+NATOMS = {1: 11, 2: 12}     # atom count variants of the specification; variant 2 is realised as 12 atoms or as ONE atom (a shape numpy-style
+#                           assignment would broadcast), chosen per task by _alt()
+_ALT = [False]
+
+
+def _natoms(k):
+    return 1 if (k == 2 and _ALT[0]) else NATOMS[k]
 
 CFG = """SPECIFICATION Spec
 CONSTANTS MaxFrames = %(MaxFrames)d
@@ -133,7 +139,7 @@ def _convert(task):
 
 
 def _arrays(ext, ids, s):
-    na = NATOMS[s["natoms"]]
+    na = _natoms(s["natoms"])
     sc = trajgen.scale_of(ext)
     xyz = trajgen.coords(ids, na) * np.float32(sc)
     L = np.array([[5.0 + 0.1 * f, 6.0, 7.0] for f in ids], dtype=np.float32) * np.float32(sc)
@@ -225,6 +231,8 @@ def _load(path, ext, na):
 def _replay(task):
     ext, b, kill, tag = task
     hist = b["hist"]
+    _ALT[0] = (len(json.dumps(hist)) + len(ext)) % 2 == 1 and ext != "mdcrd"     # the "other" atom count is 12 atoms or a single atom
+    #                                              (not for mdcrd: a one-atom frame line cannot be told from a box line, see C01)
     d = os.path.join(_dir, "%d-%s" % (os.getpid(), tag))
     os.makedirs(d, exist_ok=True)
     path = os.path.join(d, "w." + ext)
@@ -285,7 +293,7 @@ def _replay(task):
     # ---- what is on disk ---------------------------------------------------------------------------
     acc = list(b["acc"])
     if acc and first_s is not None:
-        na = NATOMS[first_s["natoms"]]
+        na = _natoms(first_s["natoms"])
         try:
             t = _load(path, ext, na)
             ids = trajgen.frame_ids(t.xyz)
